@@ -234,7 +234,9 @@ def f2_conv_pair(ctx, repo):
         ok = len(ro) == 1 and len(wo) == 1 and ro[0][4:] == wo[0][5:] and size_of.get(ro[0]) == ss
         ctx.ob("F2e", c.where, f"{nm}: readOffset={ro} writeNullOffset={wo} staticSize={ss}", ok, "" if ok else "offset width differs between reading, writing null and staticSize")
     tw = oc.func("Table.write")
-    ok = any(isinstance(c, ast.Call) and last_attr(c) == "writeSubTable" and any(k.arg == "offsetSize" and norm(k.value) == "self.staticSize" for k in c.keywords) for c in calls_in(tw.node))
+    from ..core import private_callees as _pc
+
+    ok = any(isinstance(c, ast.Call) and last_attr(c) == "writeSubTable" and any(k.arg == "offsetSize" and norm(k.value) == "self.staticSize" for k in c.keywords) for fx in [tw] + list(_pc(repo, tw, depth=1)) for c in calls_in(fx.node))
     ctx.ob("F2e", tw.where, "writer.writeSubTable(subWriter, offsetSize=self.staticSize)", ok)
     gd = ob.func("OTTableWriter.getData")
     handled = sorted(try_fold(n.comparators[0]) for n in ast.walk(gd.node) if isinstance(n, ast.Compare) and norm(n.left) == "item.offsetSize")
